@@ -689,6 +689,15 @@ def scan() -> List[M]:
         M("C19", "scan4-benign-es-limit-upper-101", ES, "        if limit < 0 or limit > 100:", "        if limit < 0 or limit > 101:", "clean", count=2),
         M("C18", "scan4-dt-forget-pops-none", DT, "                self._settings.pop(setting.id_, None)", "                self._settings.pop(None, setting.id_)", "C18.R4"),
         M("C09", "scan4-discover-probe-never-sent", INIT, "            response = await DISCOVERY_COMMAND.execute(UdpInverterProtocol(host, port, 0, timeout, retries))\n", "", "C09.R8"),
+        M("C17", "scan4-es-read-setting-routing-negated", ES, "        count = (setting.size_ + (setting.size_ % 2)) // 2\n        if self._is_modbus_setting(setting):\n            response = await self._read_from_socket(self._read_command(setting.offset, count))",
+          "        count = (setting.size_ + (setting.size_ % 2)) // 2\n        if not self._is_modbus_setting(setting):\n            response = await self._read_from_socket(self._read_command(setting.offset, count))", "C17.R6"),
+        M("C19", "scan4-es-read-setting-routing-negated", ES, "        count = (setting.size_ + (setting.size_ % 2)) // 2\n        if self._is_modbus_setting(setting):\n            response = await self._read_from_socket(self._read_command(setting.offset, count))",
+          "        count = (setting.size_ + (setting.size_ % 2)) // 2\n        if not self._is_modbus_setting(setting):\n            response = await self._read_from_socket(self._read_command(setting.offset, count))", "C19.R9"),
+        M("C09", "scan4-dt-model-fallback-indexes-response-object", DT, "                response = await self._read_from_socket(self._READ_DEVICE_MODEL)\n                response = response.response_data()\n",
+          "                response = await self._read_from_socket(self._READ_DEVICE_MODEL)\n", "C09.R1"),
+        M("C09", "scan4-dt-read-unsigned-int-swapped", DT, "read_unsigned_int(response, 0)", "read_unsigned_int(0, response)", "C09.R1"),
+        M("C19", "scan4-ecomodev1-decoder-refuses-minus-100", S, "        if self.power < -100 or self.power > 100:", "        if self.power < -99 or self.power > 100:", "C19.R4"),
+        M("C19", "scan4-benign-ecomodev1-decoder-wider", S, "        if self.power < -100 or self.power > 100:", "        if self.power < -101 or self.power > 100:", "clean"),
         M("C16", "scan-dt-id-map-never-built", DT, "        self._sensors_map = {s.id_: s for s in self.sensors()}\n        return self._sensors_map.get(sensor_id)", "        return self._sensors_map.get(sensor_id)", "C16.R5"),
     ]
 
